@@ -19,6 +19,7 @@ THEOREMS = [
     "IsoVerif.Props.C03.C03_pushes_are_calls",
     "IsoVerif.Props.C03.C03_roots_are_calls",
     "IsoVerif.Props.C03.C03_retention",
+    "IsoVerif.Props.C03.C03_served_without_execution",
     "IsoVerif.Props.C03.C03_witness_intern_alias",
     "IsoVerif.Props.C03.C03_memsafe_false",
 ]
@@ -30,7 +31,7 @@ TECHNIQUE = _b.TECHNIQUE.replace("every call's value = from-scratch evaluation o
 PARTIAL = [
     "C03_statement is false of today's code: the collector panics on a retained reference to a node an earlier collection removed, and after a first call that panicked (open known findings with witness theorems). The LRU eviction of a re-verified top-level query by its own dependencies (and its two consequences) was repaired together with F22 (/repo 340414a)",
     "C03_retention carries the retention clause for ALL programs and histories (the roots are retained ∪ the cap most recent distinct top-level calls actually made, C03_roots_are_calls) — for a collection that RETURNS; that a collection returns is exactly what the two open collector-panic findings violate",
-    "'served without re-execution' after gc follows from unchanged value+stamps only through C01/C02, which are themselves partial",
+    "C03_served_without_execution carries 'served without re-execution' for roots (and what they depend on) verified in the current epoch, i.e. called since the last source change; across a source change, whether a kept node re-executes is C02's clause, carried only by the C02 theorems",
     "memory safety: intern_ref is modelled as a layer over the core model (allocation liveness of value boxes, re-pointing rules); C03_memsafe is false of today's code (F19, witness theorem, pointer identity re-confirmed on the real crate on every run) and no _partial memory-safety theorem is proved; intern_value and MemoRef parameters are not modelled; stacked-borrows / provenance rules beyond 'allocation alive' and Miri runs are out of scope of this check",
 ]
 ASSUMPTIONS = _b.ASSUMPTIONS
